@@ -130,8 +130,8 @@ static int new_packet(int sk_fd, int can_socket) {
     int res = 0;
     uint64_t proc_bytes = 0, msg_proc_bytes = 0;
     uint32_t udp_seq_num;
-    uint16_t msg_length, can_payload_length, acf_msg_length;
-    uint8_t subtype;
+    uint16_t msg_length, can_payload_length, acf_msg_length, pdu_length;
+    uint8_t subtype, pad_length;
     uint8_t pdu[MAX_PDU_SIZE], i;
     uint8_t *cf_pdu, *acf_pdu, *udp_pdu, *can_payload;
     frame_t frame;
@@ -143,14 +143,22 @@ static int new_packet(int sk_fd, int can_socket) {
         perror("Failed to receive data");
         return 0;
     }
+    pdu_length = res;
 
     if (use_udp) {
+        if (pdu_length < AVTP_UDP_HEADER_LEN) {
+            return 0;
+        }
         udp_pdu = pdu;
         udp_seq_num = Avtp_Udp_GetEncapsulationSeqNo((Avtp_Udp_t *)udp_pdu);
         cf_pdu = pdu + AVTP_UDP_HEADER_LEN;
         proc_bytes += AVTP_UDP_HEADER_LEN;
     } else {
         cf_pdu = pdu;
+    }
+
+    if (pdu_length < proc_bytes + AVTP_COMMON_HEADER_LEN) {
+        return 0;
     }
 
     subtype = Avtp_CommonHeader_GetSubtype((Avtp_CommonHeader_t*)cf_pdu);
@@ -160,14 +168,31 @@ static int new_packet(int sk_fd, int can_socket) {
     }
 
     if (subtype == AVTP_SUBTYPE_TSCF){
+        if (pdu_length < proc_bytes + AVTP_TSCF_HEADER_LEN) {
+            return 0;
+        }
         proc_bytes += AVTP_TSCF_HEADER_LEN;
         msg_length = Avtp_Tscf_GetStreamDataLength((Avtp_Tscf_t*)cf_pdu);
     } else {
+        if (pdu_length < proc_bytes + AVTP_NTSCF_HEADER_LEN) {
+            return 0;
+        }
         proc_bytes += AVTP_NTSCF_HEADER_LEN;
         msg_length = Avtp_Ntscf_GetNtscfDataLength((Avtp_Ntscf_t*)cf_pdu);
     }
 
+    // The announced ACF messages have to lie within the received datagram
+    if (msg_length > pdu_length - proc_bytes) {
+        fprintf(stderr, "Error: control format length exceeds the received packet.\n");
+        return 0;
+    }
+
     while (msg_proc_bytes < msg_length) {
+
+        // There has to be room for a complete ACF CAN header
+        if (msg_length - msg_proc_bytes < AVTP_CAN_HEADER_LEN) {
+            return 0;
+        }
 
         acf_pdu = &pdu[proc_bytes + msg_proc_bytes];
 
@@ -179,7 +204,20 @@ static int new_packet(int sk_fd, int can_socket) {
 
         can_payload = Avtp_Can_GetPayload((Avtp_Can_t*)acf_pdu);
         acf_msg_length = Avtp_Can_GetAcfMsgLength((Avtp_Can_t*)acf_pdu)*4;
-        can_payload_length = Avtp_Can_GetCanPayloadLength((Avtp_Can_t*)acf_pdu);
+        pad_length = Avtp_Can_GetPad((Avtp_Can_t*)acf_pdu);
+
+        // The ACF message has to hold its header and padding, and to end
+        // within the control format payload (a zero length would never advance)
+        if (acf_msg_length < AVTP_CAN_HEADER_LEN + pad_length ||
+            acf_msg_length > msg_length - msg_proc_bytes) {
+            fprintf(stderr, "Error: invalid ACF message length.\n");
+            return 0;
+        }
+        can_payload_length = acf_msg_length - AVTP_CAN_HEADER_LEN - pad_length;
+        if (can_payload_length > ((can_variant == AVTP_CAN_FD) ? CANFD_MAX_DLEN : CAN_MAX_DLEN)) {
+            fprintf(stderr, "Error: CAN payload does not fit into a CAN frame.\n");
+            return 0;
+        }
         msg_proc_bytes += acf_msg_length;
 
         // Handle EFF Flag
